@@ -28,14 +28,14 @@ namespace Rangers.Model.Evm12
 /-- vm/errors.go, as far as frames distinguish them. -/
 inductive Err where
   | depth | insufficientBalance | collision | writeProtection | outOfGas | invalidOp
-  | reverted | codeStoreOutOfGas | maxCodeSize | noSuchMiner
+  | reverted | codeStoreOutOfGas | maxCodeSize | noSuchMiner | precompileFail
   deriving DecidableEq, Repr, Inhabited
 
 def Err.name : Err → String
   | .depth => "depth" | .insufficientBalance => "insufficient" | .collision => "collision"
   | .writeProtection => "write-protection" | .outOfGas => "oog" | .invalidOp => "invalid"
   | .reverted => "reverted" | .codeStoreOutOfGas => "codestore-oog" | .maxCodeSize => "maxcodesize"
-  | .noSuchMiner => "no-such-miner"
+  | .noSuchMiner => "no-such-miner" | .precompileFail => "precompile-fail"
 
 /-- The state-relevant opcodes. -/
 inductive Op where
@@ -97,6 +97,14 @@ inductive Frame where
   | unstakeall (rest : Frame)
   deriving Repr, Inhabited
 
+/-- The outcome of `RunPrecompiledContract` as the frame tree records it in the (otherwise
+    unused) body of a call to a precompile: `oog` = supplied gas below `RequiredGas`,
+    `invalid` = `Run` rejects the input, anything else = success. -/
+def precompileOutcome : Frame → Option Err
+  | .done .oog => some .outOfGas
+  | .done .invalid => some .precompileFail
+  | _ => none
+
 structure Env where
   /-- `evm.Origin` (sponsor of AUTHCALL, refund target of UNSTAKE) -/
   origin : Addr
@@ -132,6 +140,12 @@ def Result.ok (r : Result) : Bool := r.err.isNone
 
 def CallCreateDepth : Nat := 1024
 
+/-- what an entry point runs after its snapshot: nothing (empty code), the callee's byte code
+    through the interpreter, or `RunPrecompiledContract` -/
+inductive Callee where
+  | none | code | precompile
+  deriving DecidableEq, Repr, Inhabited
+
 /-- Outcome of the statements of an entry point that precede `run`. -/
 inductive Entry where
   /-- returned with an error before `Snapshot()` (world as left) -/
@@ -139,12 +153,22 @@ inductive Entry where
   /-- returned `nil` after `Snapshot()` without running anything (call to a
       non-existent account without value) -/
   | skip (w : World)
-  /-- about to `run`: snapshot world, current world, context address, read-only flag,
-      whether any code runs (not a precompile, code non-empty) -/
-  | enter (saved w : World) (self : Addr) (ro : Bool) (exec : Bool)
+  /-- about to run: snapshot world, current world, context address, read-only flag, what runs -/
+  | enter (saved w : World) (self : Addr) (ro : Bool) (callee : Callee)
 
-def runsCode (env : Env) (w : World) (target : Addr) : Bool :=
-  !env.isPrecompile target && w.getCode target != .empty
+def calleeOf (env : Env) (w : World) (target : Addr) : Callee :=
+  if env.isPrecompile target then .precompile
+  else if w.getCode target != .empty then .code else .none
+
+/-- what runs between the snapshot and the revert block of the call-like entry points:
+    `RunPrecompiledContract` (no state access; `pe` is its error), the interpreter on the callee's
+    code (`k`), or nothing -/
+def runCallee (callee : Callee) (pe : Option Err) (k : Nat → Bool → Addr → World → Result)
+    (depth : Nat) (ro : Bool) (self : Addr) (w : World) : Result :=
+  match callee with
+  | .precompile => { world := w, err := pe }
+  | .code => k (depth + 1) ro self w
+  | .none => { world := w }
 
 /-- `Call` / `CallCode` / `DelegateCall` / `StaticCall` up to `run`. `self` is the
     calling frame's context address (`caller.Address()`). -/
@@ -158,16 +182,16 @@ def callEnter (env : Env) (depth : Nat) (ro : Bool) (self : Addr) (kind : CallKi
     if !w.exists? target && !env.isPrecompile target && value == 0 then .skip w else
     let w1 := if w.exists? target then w else w.createAccount target
     let w2 := w1.transfer self target value
-    .enter w w2 target ro (runsCode env w2 target)
+    .enter w w2 target ro (calleeOf env w2 target)
   | .callcode =>
     if !w.canTransfer self value then .fail w .insufficientBalance else
-    .enter w w self ro (runsCode env w target)
+    .enter w w self ro (calleeOf env w target)
   | .delegatecall =>
-    .enter w w self ro (runsCode env w target)
+    .enter w w self ro (calleeOf env w target)
   | .staticcall =>
     -- snapshot, then AddBalance(addr, big0) "to trigger a touch"
     let w1 := w.addBalance target 0
-    .enter w w1 target true (runsCode env w1 target)
+    .enter w w1 target true (calleeOf env w1 target)
 
 /-- the tail of the four call entry points: revert on any error; `CallCode`
     returns `nil` logs. -/
@@ -187,7 +211,7 @@ def authEnter (env : Env) (depth : Nat) (ro : Bool) (authorized target : Addr) (
   if !w0.exists? target && !env.isPrecompile target && value == 0 then .skip w0 else
   let w1 := if w0.exists? target then w0 else w0.createAccount target
   let w2 := w1.transfer env.origin target value
-  .enter w0 w2 target ro (runsCode env w2 target)
+  .enter w0 w2 target ro (calleeOf env w2 target)
 
 def authExit (env : Env) (saved : World) (r : Result) : Result :=
   { r with world := if r.err.isSome then env.rv saved r.world else r.world, ret := .none }
@@ -206,7 +230,7 @@ def createEnter (env : Env) (depth : Nat) (ro : Bool) (self : Addr) (value : Nat
   -- snapshot := Snapshot()
   let w3 := (w2.createAccount addr).setNonce addr 1
   let w4 := w3.transfer self addr value
-  .enter w2 w4 addr ro true
+  .enter w2 w4 addr ro .code
 
 /-- code deposit of `create`: `SetCode` when the init code succeeded and its return data can be
     paid for, `ErrCodeStoreOutOfGas` when it cannot -/
@@ -248,14 +272,17 @@ def stakeEffect (env : Env) (self : Addr) (amount : Nat) (w : World) : World :=
   if env.isMiner self && w.canTransfer self amount then w.subBalance self amount else w
 
 /-- `evm.Call` / `CallCode` / `DelegateCall` / `StaticCall`, with the interpreter run of
-    the callee's code passed in as `k depth readOnly self world`. -/
+    the callee's code passed in as `k depth readOnly self world` and the outcome of a precompile run
+    as `pe`. Every path after the snapshot goes through `callExit` (the revert block), except the
+    `skip` return, which has touched nothing. -/
 def callFrameK (env : Env) (depth : Nat) (ro : Bool) (self : Addr) (kind : CallKind)
-    (target : Addr) (value : Nat) (k : Nat → Bool → Addr → World → Result) (w : World) : Result :=
+    (target : Addr) (value : Nat) (k : Nat → Bool → Addr → World → Result) (pe : Option Err)
+    (w : World) : Result :=
   match callEnter env depth ro self kind target value w with
   | .fail w' e => { world := w', err := some e }
   | .skip w' => { world := w' }
-  | .enter saved w' self' ro' exec =>
-    callExit env kind saved (if exec then k (depth + 1) ro' self' w' else { world := w' })
+  | .enter saved w' self' ro' callee =>
+    callExit env kind saved (runCallee callee pe k depth ro' self' w')
 
 /-- `evm.create` (behind `Create` and `Create2`). -/
 def createFrameK (env : Env) (depth : Nat) (ro : Bool) (self : Addr) (two : Bool) (salt value : Nat)
@@ -272,7 +299,8 @@ def createFrameK (env : Env) (depth : Nat) (ro : Bool) (self : Addr) (two : Bool
     (an authorization, once given, stays for the rest of the frame; the harness re-AUTHs before
     every authorized AUTHCALL and only emits `none` before the first one). -/
 def authFrameK (env : Env) (depth : Nat) (ro : Bool) (authorized : Option Addr) (authNonce : Nat)
-    (target : Addr) (value : Nat) (k : Nat → Bool → Addr → World → Result) (w : World) : Result :=
+    (target : Addr) (value : Nat) (k : Nat → Bool → Addr → World → Result) (pe : Option Err)
+    (w : World) : Result :=
   match authorized with
   | none => { world := w, err := some .invalidOp }
   | some au =>
@@ -280,8 +308,8 @@ def authFrameK (env : Env) (depth : Nat) (ro : Bool) (authorized : Option Addr) 
     match authEnter env depth ro au target value w with
     | .fail w' e => { world := w', err := some e }
     | .skip w' => { world := w' }
-    | .enter saved w' self' ro' exec =>
-      authExit env saved (if exec then k (depth + 1) ro' self' w' else { world := w' })
+    | .enter saved w' self' ro' callee =>
+      authExit env saved (runCallee callee pe k depth ro' self' w')
 
 /-- `EVMInterpreter.Run` on a frame body. `depth` is `evm.depth` inside this frame,
     `ro` the sticky `in.readOnly`, `self` the context address, `clogs` the frame's
@@ -306,7 +334,7 @@ def run (env : Env) (depth : Nat) (ro : Bool) (self : Addr) (w : World) (clogs :
   | .call id kind target value body rest =>
     if roBlocked ro kind.op value then failWith w tr .writeProtection else
     let r := callFrameK env depth ro self kind target value
-      (fun d ro' self' w' => run env d ro' self' w' [] [] body) w
+      (fun d ro' self' w' => run env d ro' self' w' [] [] body) (precompileOutcome body) w
     run env depth ro self r.world (clogs ++ r.logs)
       (tr ++ r.trace ++ [{ id := id, ok := r.ok, world := r.world }]) rest
   | .create id two salt value init rest =>
@@ -319,7 +347,7 @@ def run (env : Env) (depth : Nat) (ro : Bool) (self : Addr) (w : World) (clogs :
     if roBlocked ro .authcall value then failWith w tr .writeProtection else
     -- gasAuthCall (gas_table.go:369-371) warms the target before the opcode executes
     let r := authFrameK env depth ro authorized authNonce target value
-      (fun d ro' self' w' => run env d ro' self' w' [] [] body) (w.addAccess target)
+      (fun d ro' self' w' => run env d ro' self' w' [] [] body) (precompileOutcome body) (w.addAccess target)
     run env depth ro self r.world (clogs ++ r.logs)
       (tr ++ r.trace ++ [{ id := id, ok := r.ok, world := r.world }]) rest
   | .stake amount rest =>
@@ -337,7 +365,7 @@ def run (env : Env) (depth : Nat) (ro : Bool) (self : Addr) (w : World) (clogs :
 def callFrame (env : Env) (depth : Nat) (ro : Bool) (self : Addr) (kind : CallKind)
     (target : Addr) (value : Nat) (body : Frame) (w : World) : Result :=
   callFrameK env depth ro self kind target value
-    (fun d ro' self' w' => run env d ro' self' w' [] [] body) w
+    (fun d ro' self' w' => run env d ro' self' w' [] [] body) (precompileOutcome body) w
 
 /-- `evm.Create` / `Create2` with init code `init`. -/
 def createFrame (env : Env) (depth : Nat) (ro : Bool) (self : Addr) (two : Bool) (salt value : Nat)
@@ -349,7 +377,7 @@ def createFrame (env : Env) (depth : Nat) (ro : Bool) (self : Addr) (two : Bool)
 def authFrame (env : Env) (depth : Nat) (ro : Bool) (authorized : Option Addr) (authNonce : Nat)
     (target : Addr) (value : Nat) (body : Frame) (w : World) : Result :=
   authFrameK env depth ro authorized authNonce target value
-    (fun d ro' self' w' => run env d ro' self' w' [] [] body) w
+    (fun d ro' self' w' => run env d ro' self' w' [] [] body) (precompileOutcome body) w
 
 /-- the driver's `RevertToSnapshot`: restore the saved world (journaled fields are
     all of `World`). -/
